@@ -1,8 +1,220 @@
 (* Proofs for property C19 about the model Algo/BBHash.v. *)
-From Coq Require Import NArith List Bool Arith Lia Relations.
+From Coq Require Import NArith List Bool Arith Lia Relations Permutation.
 From DBG Require Import Spec.Dna Spec.GraphIndex Algo.BBHash.
 Import ListNotations.
 Local Open Scope nat_scope.
 
+(* ------------------------------------------------------------------ lists *)
 Lemma lset_length {A} (l : list A) i x : length (lset l i x) = length l.
 Proof. revert i; induction l; destruct i; cbn; auto. Qed.
+
+Lemma nth_lset {A} (l : list A) i j x d : i < length l ->
+  nth j (lset l i x) d = if j =? i then x else nth j l d.
+Proof.
+  revert i j; induction l as [|a l IH]; intros i j H; cbn in H; [lia|].
+  destruct i, j; cbn; auto. apply IH; lia.
+Qed.
+
+Lemma nth_repeat_if {A} (x d : A) n i : nth i (repeat x n) d = if i <? n then x else d.
+Proof.
+  revert i; induction n; intros i; cbn; [destruct i; auto|].
+  destruct i; auto. rewrite IHn. reflexivity.
+Qed.
+
+Lemma nth_map_seq {A} (f : nat -> A) n s d : s < n -> nth s (map f (seq 0 n)) d = f s.
+Proof.
+  intros H. rewrite (nth_indep _ d (f 0)) by (rewrite map_length, seq_length; lia).
+  rewrite map_nth, seq_nth by lia. reflexivity.
+Qed.
+
+Lemma bget_bset v s t x : s < length v -> bget (bset v s x) t = if t =? s then x else bget v t.
+Proof. intros H. unfold bget, bset. apply nth_lset; auto. Qed.
+Lemma bset_length v s x : length (bset v s x) = length v.
+Proof. apply lset_length. Qed.
+Lemma bget_bnew size s : bget (bnew size) s = false.
+Proof. unfold bget, bnew. rewrite nth_repeat_if. destruct (s <? size); auto. Qed.
+Lemma bget_overflow v s : length v <= s -> bget v s = false.
+Proof. intros. apply nth_overflow; auto. Qed.
+
+Lemma bv_ext (v : bv) (f : nat -> bool) size : length v = size -> (forall s, s < size -> bget v s = f s) ->
+  v = map f (seq 0 size).
+Proof.
+  intros L H. apply (nth_ext _ _ false false).
+  - rewrite map_length, seq_length; auto.
+  - intros s Hs. rewrite nth_map_seq by lia. apply H. lia.
+Qed.
+
+(* ------------------------------------------------------------------ number of keys on a slot *)
+Definition cnt (s : nat) (slots : list nat) : nat := count_occ Nat.eq_dec slots s.
+
+Lemma cnt_cons s a l : cnt s (a :: l) = (if Nat.eq_dec a s then 1 else 0) + cnt s l.
+Proof. unfold cnt; cbn. destruct (Nat.eq_dec a s); auto. Qed.
+
+Lemma cnt_ge1 s l : 1 <= cnt s l -> exists i, i < length l /\ nth i l 0 = s.
+Proof.
+  induction l as [|a l IH]; rewrite ?cnt_cons; cbn; [unfold cnt; cbn; lia|].
+  destruct (Nat.eq_dec a s).
+  - intros _. exists 0. split; [lia|auto].
+  - intros H. destruct IH as (i & Hi & E); [lia|]. exists (S i). split; [lia|auto].
+Qed.
+Lemma idx_cnt_ge1 s l i : i < length l -> nth i l 0 = s -> 1 <= cnt s l.
+Proof.
+  revert i; induction l as [|a l IH]; intros i H E; cbn in H; [lia|]. rewrite cnt_cons.
+  destruct i; cbn in E.
+  - destruct (Nat.eq_dec a s); lia.
+  - specialize (IH i). lia.
+Qed.
+Lemma cnt_ge2 s l : 2 <= cnt s l ->
+  exists i j, i < j /\ j < length l /\ nth i l 0 = s /\ nth j l 0 = s.
+Proof.
+  induction l as [|a l IH]; [unfold cnt; cbn; lia|]. rewrite cnt_cons.
+  destruct (Nat.eq_dec a s).
+  - intros H. destruct (cnt_ge1 s l) as (j & Hj & E); [lia|].
+    exists 0, (S j). cbn. repeat split; auto; lia.
+  - intros H. destruct IH as (i & j & ? & ? & ? & ?); [lia|].
+    exists (S i), (S j). cbn. repeat split; auto; lia.
+Qed.
+Lemma idx2_cnt_ge2 s l i j : i < j -> j < length l -> nth i l 0 = s -> nth j l 0 = s -> 2 <= cnt s l.
+Proof.
+  revert i j; induction l as [|a l IH]; intros i j Hij Hj Ei Ej; cbn in Hj; [lia|]. rewrite cnt_cons.
+  destruct j; [lia|]. destruct i; cbn in Ei, Ej.
+  - pose proof (idx_cnt_ge1 s l j). destruct (Nat.eq_dec a s); lia.
+  - specialize (IH i j). lia.
+Qed.
+
+(* ------------------------------------------------------------------ phase 1 under any interleaving (DESIGN A.5) *)
+Section Phase1.
+  Variable slots : list nat.
+  Variable size : nat.
+  Hypothesis slots_lt : forall i, i < length slots -> slot slots i < size.
+  Let n := length slots.
+  Notation pcn st i := (nth i (pcs st) Ds).
+  Notation sl i := (slot slots i).
+
+  Definition post (p : pc) : bool := match p with P2 | Df | Dc => true | _ => false end.
+
+  (* the invariant of every reachable state *)
+  Definition Inv (st : st1) : Prop :=
+    length (pcs st) = n /\ length (sa st) = size /\ length (sc st) = size /\
+    (* I1a *) (forall i, i < n -> post (pcn st i) = true -> bget (sa st) (sl i) = true) /\
+    (* I1b/I2 existence *) (forall s, bget (sa st) s = true -> exists i, i < n /\ sl i = s /\ pcn st i = Df) /\
+    (* I2 uniqueness *) (forall i j, i < n -> j < n -> sl i = sl j -> pcn st i = Df -> pcn st j = Df -> i = j) /\
+    (* I3 *) (forall s, bget (sc st) s = true -> exists i, i < n /\ sl i = s /\ pcn st i = Dc) /\
+    (* I4, I5 *) (forall i, i < n -> pcn st i = Ds \/ pcn st i = Dc -> bget (sc st) (sl i) = true).
+
+  Lemma Inv_init : Inv (init1 n size).
+  Proof.
+    unfold Inv, init1; cbn [pcs sa sc]. unfold bnew at 1 2. rewrite !repeat_length. repeat split; auto.
+    - intros i Hi. rewrite nth_repeat_if. apply Nat.ltb_lt in Hi. rewrite Hi. cbn. discriminate.
+    - intros s. rewrite bget_bnew. discriminate.
+    - intros i j Hi _ _. rewrite nth_repeat_if. apply Nat.ltb_lt in Hi. rewrite Hi. discriminate.
+    - intros s. rewrite bget_bnew. discriminate.
+    - intros i Hi. rewrite nth_repeat_if. apply Nat.ltb_lt in Hi. rewrite Hi. intros [?|?]; discriminate.
+  Qed.
+  Ltac pcr Lp Hi := rewrite ?nth_lset by (rewrite Lp; exact Hi).
+  (* a witness thread w (with program counter q) survives a step of thread i whose counter was p <> q *)
+  Ltac keep_witness w i Lp Hi :=
+    exists w; repeat split; auto; pcr Lp Hi;
+    let E := fresh "E" in destruct (w =? i) eqn:E; auto; apply Nat.eqb_eq in E; subst w; congruence.
+
+  Lemma Inv_step st st' : step1 slots st st' -> Inv st -> Inv st'.
+  Proof.
+    intros S (Lp & La & Lc & J1 & J2 & J3 & J4 & J5).
+    destruct S as [st i Hi Hpc Hc | st i Hi Hpc | st i Hi Hpc | st i Hi Hpc]; unfold Inv; cbn [pcs sa sc];
+      rewrite ?lset_length, ?bset_length; (split; [auto|]); (split; [auto|]); (split; [auto|]);
+      fold n in Hi.
+    - (* read collide = true *)
+      repeat split.
+      + intros j Hj. pcr Lp Hi. destruct (j =? i) eqn:E; [discriminate|]. auto.
+      + intros s H. destruct (J2 s H) as (w & Hw & Ew & Pw). keep_witness w i Lp Hi.
+      + intros x y Hx Hy E. pcr Lp Hi. destruct (x =? i); [discriminate|]. destruct (y =? i); [discriminate|]. auto.
+      + intros s H. destruct (J4 s H) as (w & Hw & Ew & Pw). keep_witness w i Lp Hi.
+      + intros j Hj. pcr Lp Hi. destruct (j =? i) eqn:E; [|auto]. apply Nat.eqb_eq in E; subst j. auto.
+    - (* read collide = false (possibly stale) *)
+      repeat split.
+      + intros j Hj. pcr Lp Hi. destruct (j =? i) eqn:E; [discriminate|]. auto.
+      + intros s H. destruct (J2 s H) as (w & Hw & Ew & Pw). keep_witness w i Lp Hi.
+      + intros x y Hx Hy E. pcr Lp Hi. destruct (x =? i); [discriminate|]. destruct (y =? i); [discriminate|]. auto.
+      + intros s H. destruct (J4 s H) as (w & Hw & Ew & Pw). keep_witness w i Lp Hi.
+      + intros j Hj. pcr Lp Hi. destruct (j =? i) eqn:E; [intros [?|?]; discriminate|auto].
+    - (* fetch_or a *)
+      assert (Hs : sl i < length (sa st)) by (rewrite La; apply slots_lt; auto).
+      repeat split.
+      + intros j Hj. rewrite bget_bset by auto. destruct (sl j =? sl i) eqn:E; auto.
+        pcr Lp Hi. destruct (j =? i) eqn:E2; [|auto].
+        apply Nat.eqb_eq in E2; subst j. rewrite Nat.eqb_refl in E; discriminate.
+      + intros s. rewrite bget_bset by auto. destruct (s =? sl i) eqn:E.
+        * apply Nat.eqb_eq in E; subst s. intros _. destruct (bget (sa st) (sl i)) eqn:A.
+          -- destruct (J2 _ A) as (w & Hw & Ew & Pw). keep_witness w i Lp Hi.
+          -- exists i. repeat split; auto. pcr Lp Hi. rewrite Nat.eqb_refl. reflexivity.
+        * intros H. destruct (J2 s H) as (w & Hw & Ew & Pw). keep_witness w i Lp Hi.
+      + intros x y Hx Hy E. pcr Lp Hi.
+        destruct (x =? i) eqn:Ex; destruct (y =? i) eqn:Ey;
+          try (apply Nat.eqb_eq in Ex; subst x); try (apply Nat.eqb_eq in Ey; subst y); auto.
+        * destruct (bget (sa st) (sl i)) eqn:A; [discriminate|]. intros _ Py.
+          rewrite E, J1 in A; auto; [discriminate|]. rewrite Py; reflexivity.
+        * destruct (bget (sa st) (sl i)) eqn:A; [discriminate|]. intros Px _.
+          rewrite <- E, J1 in A; auto; [discriminate|]. rewrite Px; reflexivity.
+      + intros s H. destruct (J4 s H) as (w & Hw & Ew & Pw). keep_witness w i Lp Hi.
+      + intros j Hj. pcr Lp Hi. destruct (j =? i) eqn:E; [|auto].
+        destruct (bget (sa st) (sl i)); intros [?|?]; discriminate.
+    - (* fetch_or collide *)
+      assert (Hs : sl i < length (sc st)) by (rewrite Lc; apply slots_lt; auto).
+      repeat split.
+      + intros j Hj. pcr Lp Hi. destruct (j =? i) eqn:E; [|auto].
+        apply Nat.eqb_eq in E; subst j. intros _. apply J1; auto. rewrite Hpc; reflexivity.
+      + intros s H. destruct (J2 s H) as (w & Hw & Ew & Pw). keep_witness w i Lp Hi.
+      + intros x y Hx Hy E. pcr Lp Hi. destruct (x =? i); [discriminate|]. destruct (y =? i); [discriminate|]. auto.
+      + intros s. rewrite bget_bset by auto. destruct (s =? sl i) eqn:E.
+        * apply Nat.eqb_eq in E; subst s. intros _. exists i. repeat split; auto. pcr Lp Hi.
+          rewrite Nat.eqb_refl; reflexivity.
+        * intros H. destruct (J4 s H) as (w & Hw & Ew & Pw). keep_witness w i Lp Hi.
+      + intros j Hj. rewrite bget_bset by auto. destruct (sl j =? sl i) eqn:E; auto.
+        pcr Lp Hi. destruct (j =? i) eqn:E2; [|auto].
+        apply Nat.eqb_eq in E2; subst j. rewrite Nat.eqb_refl in E; discriminate.
+  Qed.
+
+  Lemma Inv_reach st : clos_refl_trans _ (step1 slots) (init1 n size) st -> Inv st.
+  Proof.
+    intros R. apply clos_rt_rtn1 in R. induction R as [|y z S R IH]; [apply Inv_init|].
+    eapply Inv_step; eauto.
+  Qed.
+  (* what a finished thread implies *)
+  Lemma done_cases st i : done1 slots st -> i < n -> pcn st i = Ds \/ pcn st i = Df \/ pcn st i = Dc.
+  Proof. intros D Hi. specialize (D i Hi). destruct (pcn st i); cbn in D; auto; discriminate. Qed.
+
+  Theorem phase1_final st : clos_refl_trans _ (step1 slots) (init1 n size) st -> done1 slots st ->
+    sa st = map (fun s => 1 <=? cnt s slots) (seq 0 size) /\
+    sc st = map (fun s => 2 <=? cnt s slots) (seq 0 size).
+  Proof.
+    intros R D. destruct (Inv_reach st R) as (Lp & La & Lc & J1 & J2 & J3 & J4 & J5).
+    assert (DA : forall i, i < n -> bget (sa st) (sl i) = true).
+    { intros i Hi. destruct (done_cases st i D Hi) as [P|[P|P]].
+      - destruct (J4 (sl i)) as (w & Hw & Ew & Pw); [apply J5; auto|].
+        rewrite <- Ew. apply J1; auto. rewrite Pw; reflexivity.
+      - apply J1; auto. rewrite P; reflexivity.
+      - apply J1; auto. rewrite P; reflexivity. }
+    split; apply bv_ext; auto; intros s Hs.
+    - destruct (bget (sa st) s) eqn:A; symmetry.
+      + destruct (J2 s A) as (w & Hw & Ew & _). apply Nat.leb_le. eapply idx_cnt_ge1; eauto.
+      + apply Nat.leb_gt. destruct (le_lt_dec 1 (cnt s slots)) as [H|H]; [|auto].
+        destruct (cnt_ge1 _ _ H) as (i & Hi & E). subst s. change (nth i slots 0) with (sl i) in A.
+        rewrite DA in A; auto. discriminate.
+    - destruct (bget (sc st) s) eqn:C; symmetry.
+      + destruct (J4 s C) as (w & Hw & Ew & Pw).
+        assert (A : bget (sa st) s = true) by (rewrite <- Ew; apply J1; auto; rewrite Pw; reflexivity).
+        destruct (J2 s A) as (w' & Hw' & Ew' & Pw'). apply Nat.leb_le.
+        destruct (Nat.lt_total w w') as [L|[L|L]].
+        * eapply (idx2_cnt_ge2 s slots w w'); eauto.
+        * subst w'. congruence.
+        * eapply (idx2_cnt_ge2 s slots w' w); eauto.
+      + apply Nat.leb_gt. destruct (le_lt_dec 2 (cnt s slots)) as [H|H]; [|auto].
+        destruct (cnt_ge2 _ _ H) as (i & j & Hij & Hj & Ei & Ej).
+        change (nth i slots 0) with (sl i) in Ei. change (nth j slots 0) with (sl j) in Ej.
+        assert (Hi : i < n) by (unfold n; lia).
+        assert (F : forall x, x < n -> sl x = s -> pcn st x = Df).
+        { intros x Hx Ex. destruct (done_cases st x D Hx) as [P|[P|P]]; auto;
+            rewrite <- Ex, J5 in C; auto; discriminate. }
+        assert (i = j) by (apply J3; auto; try congruence; try lia; apply F; auto; lia). lia.
+  Qed.
+End Phase1.
